@@ -50,11 +50,16 @@ var operKinds = []struct {
 
 func genORows(r *lib.RNG, sorted bool) []orow {
 	n := r.Intn(7)
+	dom := 3
+	if sorted { // merge joins: more duplicate keys, longer key blocks
+		n = r.Intn(9)
+		dom = 2
+	}
 	out := make([]orow, n)
 	for i := range out {
 		for j := 0; j < 2; j++ {
 			if !r.Chance(1, 6) {
-				v := int64(r.Intn(3 + j))
+				v := int64(r.Intn(dom + j))
 				out[i][j] = &v
 			}
 		}
@@ -72,7 +77,13 @@ func genORows(r *lib.RNG, sorted bool) []orow {
 }
 
 func genOperCase(r *lib.RNG) operCase {
-	c := operCase{Kind: "oper", Op: r.Intn(len(operKinds)), Extra: r.Intn(4)}
+	c := operCase{Kind: "oper", Op: r.Intn(len(operKinds) + 2), Extra: r.Intn(4)}
+	if c.Op >= len(operKinds) { // merge joins get a double share, mostly with an extra ON filter
+		c.Op = 9 + c.Op - len(operKinds)
+	}
+	if operKinds[c.Op].sort && c.Extra == 0 && r.Chance(2, 3) {
+		c.Extra = 1 + r.Intn(3)
+	}
 	c.L = genORows(r, operKinds[c.Op].sort)
 	c.R = genORows(r, operKinds[c.Op].sort)
 	return c
